@@ -520,6 +520,24 @@ var badLines = []string{
 	"issue: {", "depth: {1}", "counter: foo:{a,b} # {c}", "counter: foo:{ # open", "  a, # first", "  b # last", "} # close",
 }
 
+// strings around the grammar of strconv.ParseInt / ParseFloat
+func numberLike() string {
+	var b strings.Builder
+	b.WriteString(Pick(rnd, []string{"", "", "", "+", "-", "--", "+-", " "}))
+	switch rnd.Intn(6) {
+	case 0:
+		b.WriteString(Pick(rnd, []string{"9223372036854775807", "9223372036854775808", "9223372036854775809", "18446744073709551616",
+			"09223372036854775807", "000", "0", "00000000000000000000000000007"}))
+	default:
+		n := rnd.Intn(24)
+		for i := 0; i < n; i++ {
+			b.WriteByte(byte('0' + rnd.Intn(10)))
+		}
+	}
+	b.WriteString(Pick(rnd, []string{"", "", "", "", "_0", "e3", ".5", "x", " 1", "\u0661", "L", ".", "e", "p-2"}))
+	return b.String()
+}
+
 func caseMalformed() {
 	var lines []string
 	if rnd.Chance(60) {
@@ -533,9 +551,14 @@ func caseMalformed() {
 	nmut := 1 + rnd.Intn(4)
 	for i := 0; i < nmut; i++ {
 		switch rnd.Intn(8) {
-		case 0, 1, 2: // insert a catalogue line
+		case 0, 1, 2: // insert a catalogue line, or a numeric field with a number-like value
 			p := rnd.Intn(len(lines) + 1)
-			lines = append(lines[:p], append([]string{Pick(rnd, badLines)}, lines[p:]...)...)
+			l := Pick(rnd, badLines)
+			if rnd.Intn(5) == 0 {
+				l = Pick(rnd, []string{"depth: ", "depth:", "error: ", "depth: \t"}) + numberLike()
+				out.Note("number-like")
+			}
+			lines = append(lines[:p], append([]string{l}, lines[p:]...)...)
 		case 3: // duplicate a line (repeated field)
 			if len(lines) > 0 {
 				p := rnd.Intn(len(lines))
